@@ -386,6 +386,23 @@ theorem C17_stream_failure_shape (c : Bytes) (s s' : Stream) (e : ErrKind)
     | exact .inr ⟨_, (‹_ ∧ _›).1, rfl⟩
     | skip
 
+/-- Overwriting is blind to what is overwritten: whatever the existing file holds — the same
+    bytes, a proper initial segment of them, the new bytes followed by more, one byte different,
+    the previous export of the same object — a `write` with the overwrite flag that meets no
+    operating-system fault leaves exactly the dumped bytes, no more and no fewer.  (An instance of
+    `C17_write_meets_spec`; stated because round 3 showed that "the old content is related to the new
+    one" is where an implementation that looks at the old content goes wrong.) -/
+theorem C17_overwrite_exact (c old : Bytes) :
+    write (.ok c) true { node := .file old, env := { existsAns := true } } =
+      (.ok (), { node := .file c, env := { existsAns := true } }, [.dump, .open_, .writeFile]) := by
+  simp [write_eq, Target.openFails, Env.accepts, Node.store, Node.regular]
+
+/-- The same for a seekable stream: any prior content, any position. -/
+theorem C17_stream_exact (c old : Bytes) (p : Nat) :
+    writeStream (.ok c) { content := old, pos := p } =
+      (.ok (), { content := c, pos := c.length, calls := 4 }) := by
+  simp [writeStream_ok_eq, Stream.accepts]
+
 /-- A text-mode stream (`open(p, 'r+')`, `io.StringIO`): the export raises TypeError *after*
     emptying the stream.  This is what the unchanged code does; the property allows it (the
     complete new content had been produced) and the check does not list it as a defect. -/
@@ -414,6 +431,9 @@ example : writeStream (.ok [100, 101]) { seekable := true, content := [1, 2, 3],
 example : writeStream (.ok [100, 101]) { seekable := false, content := [1, 2, 3], pos := 0, quota := some 1 } =
     (.error .write, { seekable := false, content := [1, 2, 3, 100], pos := 0, calls := 2, quota := some 0 }) := by
   rfl
+example : write (.ok [100, 101]) true { node := .file [100, 101, 7, 7], env := { existsAns := true } } =
+    (.ok (), { node := .file [100, 101], env := { existsAns := true } }, [.dump, .open_, .writeFile]) :=
+  C17_overwrite_exact [100, 101] [100, 101, 7, 7]
 example : (writeStream (.ok [100, 101]) { content := [1, 2, 3], pos := 2, faultAt := some 2 }) =
     (.error .write, { content := [1, 2, 3], pos := 0, faultAt := some 2, calls := 3 }) := by rfl
 
